@@ -154,6 +154,8 @@ def base_scenarios():
     S.append(Sc('srv', 'pa+g', ctl() + [('U', 6), d(6, b'\x01', vi(0))] + [('B', 0), d(0, frame(H_HEADERS, REQ_GET)), ('F', 0)], 'push-stream-from-client'))
     S.append(Sc('srv', 'pa', ctl() + [('B', 0), ('B', 4), ('B', 8), d(8, frame(H_HEADERS, REQ_GET)), ('F', 8), d(0, frame(H_HEADERS, REQ_GET)),
                                         ('F', 0), d(4, frame(H_HEADERS, REQ_GET)), ('F', 4)], 'three'))
+    S.append(Sc('srv', 'pa', [('U', 18), d(18, b'\x00', SETTINGS_SOME), ('U', 22), d(22, b'\x02'), ('U', 4002), d(4002, b'\x03'), ('B', 16), ('B', 400),
+                              d(400, frame(H_HEADERS, REQ_GET)), d(16, frame(H_HEADERS, REQ_POST), frame(H_DATA, b'abc')), ('F', 400), ('F', 16)], 'high-ids'))
     S.append(Sc('srv', 'pa', ctl() + [('B', 0), d(0, frame(H_HEADERS, REQ_GET_H), frame(H_DATA, b'abc'), frame(H_HEADERS, TRAILERS_H)), ('F', 0)], 'huffman'))
     # ---- client role (peer = server: control 3, qpack 7 / 11, push 15, responses on 0, 4)
     cctl = lambda *more: [('U', 3), d(3, b'\x00', SETTINGS_EMPTY, *more)]
@@ -230,6 +232,9 @@ def line(role, opts, evs, sched, rng=None, tag=None):
             if rng.random() < 0.4:
                 out.append('~')
         es = out
+    if rng is not None and tag in ('base', 'mut', 'flt', 'huf', 'wt', 'app') and es and rng.random() < 0.12:
+        # non-contiguous RecvStream::Buf: every delivered chunk is handed to h3 cut into n-byte segments
+        es = ['SEG%d' % rng.choice([1, 2, 3, 7])] + es
     s = ','.join(es) or '-'
     return 'run %s %s %s%s' % (role, opts, s, (' ' + tag) if tag else '')
 
@@ -244,7 +249,7 @@ def fault_variants(sid, rng, k):
             'X%d' % rng.choice(CLOSE_CODES), 'T', 'I', 'XU', '%d:K' % sid][k]
 
 
-def with_faults(sc, mode, rng, kinds=(0, 1, 2, 3, 4, 6, 7), sched='each', tag='flt'):
+def with_faults(sc, mode, rng, kinds=(0, 1, 2, 3, 4, 5, 6, 7), sched='each', tag='flt'):
     """a fault of every kind at EVERY step index of the scenario"""
     evs = events_of(sc, mode, rng)
     ids = sc.streams()
@@ -532,11 +537,21 @@ def own_stream_fault_cases(bases, rng):
                 kind = rng.choice([1, 2, 2, 7])
                 new = evs[:i] + [(fault_variants(sid, rng, kind), sid)] + evs[i:]
                 out.append(line(sc.role, sc.opts, new, 'each', rng, 'own'))
+            # grease ON (the default of h3): the grease stream is the 4th own uni stream (15 on a server, 14 on a client);
+            # an RFC-conformant peer stops / ignores unknown stream types
+            gid = 15 if sc.role != 'cli' else 14
+            if 'g' not in sc.opts.split('+'):
+                kind = rng.choice([1, 2, 2, 2, 7])
+                new = evs[:i] + [(fault_variants(gid, rng, kind), gid)] + evs[i:]
+                opts = sc.opts + '+g' + rng.choice(['', '', '+q1', '+q3', '+q0'])
+                if 'q' in opts.split('+')[-1]:
+                    new = new + [('W%d:%d' % (g, rng.choice([1, 2, 7, 1000])), g) for g in OWN_STREAMS[sc.role] + [gid] for _ in range(2)]
+                out.append(line(sc.role, opts, new, 'each', rng, 'own'))
     return out
 
 
-APP_OPTS = {'srv': ['t', 's', 'x', 'y', 't+s', 's+x', 'k0', 'k1', 'k2', 'k1+t', 'x+y', 'pb+s+t'],
-            'cli': ['t', 's', 'x', 'y', 'b+t', 'b+t+s', 'd', 'n2+d', 's+x', 'b+y', 'c', 'n2+c', 'n2+c+d', 'n3+c+d+b']}
+APP_OPTS = {'srv': ['t', 's', 'x', 'y', 't+s', 's+x', 'k0', 'k1', 'k2', 'k1+t', 'x+y', 'pb+s+t', 'N', 'D', 'D+w', 'k1+q3', 'g'],
+            'cli': ['t', 's', 'x', 'y', 'b+t', 'b+t+s', 'd', 'n2+d', 's+x', 'b+y', 'c', 'n2+c', 'n2+c+d', 'n3+c+d+b', 'i', 'z', 'N', 'N+i', 'i+n2', 'z+n2', 'D', 'D+i', 'g+i']}
 
 
 def app_cases(bases, rng, rounds):
@@ -548,6 +563,10 @@ def app_cases(bases, rng, rounds):
             for extra in APP_OPTS[sc.role]:
                 opts = sc.opts + '+' + extra
                 evs = events_of(sc, rng.choice(['one', 'rand']), rng)
+                if 'D' in extra.split('+'):
+                    for _ in range(rng.randint(1, 4)):
+                        dg = rng.choice([b'\x00ab', b'\x00', b'', b'\x40', b'\x40\x00xyz', b'\xff' * 8 + b'q', bytes(rng.getrandbits(8) for _ in range(rng.randint(1, 12)))])
+                        evs.insert(rng.randint(0, len(evs)), ('D:' + dg.hex(), 0))
                 if r > 0 or rng.random() < 0.5:
                     if evs:
                         i = rng.randint(0, len(evs))
@@ -572,9 +591,9 @@ def wt_cases(rng, rounds):
                     for mode in ('r', 'o'):
                         payload = bytes(rng.getrandbits(8) for _ in range(c * rng.randint(1, 3) + rng.choice([0, 0, 1])))
                         if bidi:
-                            sid, open_ev, hdr = 4, 'B4', enc(0x41, 2) + vi(0)
+                            sid, open_ev, hdr = 4, 'B4', enc(0x41, 2) + rng.choice([vi(0), enc(0, 2), enc(0, 8), vi(4)])
                         else:
-                            sid, open_ev, hdr = 6, 'U6', enc(0x54, 2) + vi(0)
+                            sid, open_ev, hdr = 6, 'U6', enc(0x54, 2) + rng.choice([vi(0), enc(0, 2), enc(0, 4), vi(8)])
                         evs = [('U2', 2), ('2:c:' + WT_SETTINGS.hex(), 2), ('B0', 0), ('0:c:' + frame(H_HEADERS, WT_CONNECT).hex(), 0), (open_ev, sid)]
                         data = hdr + payload
                         # the header may share a chunk with payload bytes
@@ -593,6 +612,17 @@ def wt_cases(rng, rounds):
                             t = evs[min(i, len(evs) - 1)][1]
                             evs = evs[:i] + [(fault_variants(t, rng, rng.choice([0, 1, 2, 3, 4, 6, 7])), t)] + evs[i:]
                         opts = 'pa+%s%d%s' % (mode, k, '+ab' if bidi else '')
+                        if rng.random() < 0.25:
+                            opts += '+O' + rng.choice(['', '+q1', '+q3', '+u1'])
+                            if 'q' in opts or 'u' in opts:
+                                evs += [(rng.choice(['W%d:%d' % (g, rng.choice([1, 3, 64, 1000])) for g in (3, 7, 11, 15, 1, 0)] + ['G2', 'H1']), 0) for _ in range(rng.randint(2, 10))]
+                        if r > 0 and rng.random() < 0.3:
+                            # damage the WebTransport stream header / session id / CONNECT request
+                            j = rng.choice([i2 for i2, e in enumerate(evs) if ':c:' in e[0]])
+                            h = bytearray(bytes.fromhex(evs[j][0].split(':c:')[1]))
+                            pos = rng.randrange(len(h))
+                            h[pos] ^= 1 << rng.randrange(8)
+                            evs[j] = (evs[j][0].split(':c:')[0] + ':c:' + bytes(h).hex(), evs[j][1])
                         out.append(line('wts', opts, evs, rng.choice(['each', 'end', 'rand']), rng, 'wt'))
     return out
 
@@ -613,7 +643,7 @@ class P(Property):
     driver_ml = 'C06_driver.ml'
     harness_bin = 'c06'
     rule = ('adversarial scripted peer against the real server and client connection objects over SimQuic, application following the '
-            'documented call pattern (two orders per role): 23 base scenarios x {per-frame, 1-byte, random} delivery x a fault '
+            'documented call pattern (two orders per role): 24 base scenarios x {per-frame, 1-byte, random} delivery x a fault '
             '(FIN, RESET code, STOP_SENDING code, connection close code, idle timeout, transport error unknown to h3 (XU), receive half failing with '
             'StreamErrorIncoming::Unknown (K)) inserted at EVERY step index; K on a control / QPACK stream must give exactly the result of a RESET there;  grammar-directed mutants '
             '(bit flip, insert, delete, truncate, frame duplicate/swap/drop, foreign/forbidden/short/long fixed-field frames, length varints '
@@ -762,6 +792,8 @@ class P(Property):
                     continue
                 if '*' in must or target in must:
                     return False
+                if 'ctl' in must and re.search(r'\.(accept|poll_close|wait_idle)@c$', tok):
+                    return False     # the peer's control stream ended: the call reading it must complete (H3_CLOSED_CRITICAL_STREAM)
                 if target.startswith('w') and not bp:
                     return False     # a send-side call pending although no credit is withheld
         if s.get('pend', '-') != '-':
